@@ -342,7 +342,8 @@ def run(ctx):
         writes = [e[1] for e in events if e[0] == "write"]
         nonempty = any(k[0] == "truth" and v for k, v in assumed.items())
         for w in writes:
-            is_esc = isinstance(w, Sym) and "ESC" in w.tags
+            # the escaper's own result, not something computed from it afterwards (a later rewrite can un-escape)
+            is_esc = isinstance(w, Sym) and "ESC" in w.tags and "derived" not in w.tags and "derived_from" not in w.attrs
             r4.check(is_esc or not nonempty, f"{text_cls.name}.writexml[{'data' if nonempty else 'empty'}]",
                      "non-empty data is written only through the escaper", tfn.loc(), why_fail=f"raw write {w!r}")
     rules.append(r4)
